@@ -311,6 +311,29 @@ Section ColumnsOK.
   Qed.
 End ColumnsOK.
 
+(** C10 for columns: a region merged from any well-formed regions is observationally a default one
+    (each merged column is a merged inner region, hence fresh; the row index store is fresh) *)
+#[export] Instance columns_merge_fresh R `{RegionOK R} `{!MergeFresh R} (O : IC nat) `{ICOk _ O} chk : MergeFresh (columns R O chk).
+Proof.
+  intros l Hl. cbn [sim columns_spec merge columns dflt fst snd]. split.
+  - apply (@consec_merge_fresh (owned (idx R)) _ _ _ _ _ O _ chk).
+    rewrite Forall_forall in *. intros y Hy. apply in_map_iff in Hy. destruct Hy as (x & <- & Hx).
+    destruct (Hl x Hx) as (_ & Hr & _). exact Hr.
+  - intros j. rewrite (coln_beyond R [] (j := j)) by (cbn; lia).
+    unfold Columns.coln, merge_cols.
+    set (n := fold_right Nat.max 0 (map (@length _) (map fst l))).
+    destruct (Nat.lt_ge_cases j n) as [Hj|Hj].
+    + set (f := fun j0 => merge R (flat_map (fun cols : list (st R) => match nth_error cols j0 with Some c => [c] | None => [] end) (map fst l))).
+      rewrite (nth_indep _ _ (f 0)) by (rewrite map_length, seq_length; assumption).
+      rewrite (map_nth f (seq 0 n) 0 j). rewrite seq_nth by assumption. cbn [plus]. unfold f.
+      apply merge_fresh. rewrite Forall_forall. intros c Hc. apply in_flat_map in Hc.
+      destruct Hc as (cols & Hin & Hc). destruct (nth_error cols j) as [c0|] eqn:E; [|contradiction].
+      destruct Hc as [<-|[]]. apply in_map_iff in Hin. destruct Hin as (x & <- & Hx).
+      rewrite Forall_forall in Hl. destruct (Hl x Hx) as (Hcols & _). specialize (Hcols j). unfold Columns.coln in Hcols.
+      rewrite (nth_error_nth _ _ _ E) in Hcols. exact Hcols.
+    + rewrite nth_overflow by (rewrite map_length, seq_length; assumption). apply sim_refl.
+Qed.
+
 (** C12 for columns: the k-th row pushed since creation / merge / clear gets index k (the row index
     store is a consecutive-pairs region over an owned region of cell indices) *)
 Lemma columns_push_index R `{RegionOK R} (O : IC nat) `{ICOk _ O} chk x vs x' k :
